@@ -402,6 +402,9 @@ func unwritableFunc() func(int) int {
 	}
 	// mov eax, 7; nops; ret - long enough for the entry jump
 	copy(page, []byte{0xB8, 0x07, 0x00, 0x00, 0x00, 0x90, 0x90, 0x90, 0x90, 0x90, 0x90, 0x90, 0x90, 0x90, 0x90, 0x90, 0xC3})
+	// behind it a function that starts with the usual prologue: goom's extent scan of the target ends there instead of
+	// running off the end of the mapping
+	copy(page[32:], []byte{0x65, 0x48, 0x8b, 0x0c, 0x25, 0x30, 0x00, 0x00, 0x00, 0x48, 0x90, 0xC3})
 	if _, err := syscall.Write(int(fd), page); err != nil {
 		return nil
 	}
